@@ -378,6 +378,11 @@ func checkXzWriter(prop string) func(a *checkArgs, r *Result) error {
 			cases = append(cases, xzCase{Op: "xzwrite", Name: fmt.Sprintf("corpus/opsfit filler=%d", f), Cfg: xzCfg{LC: 3, PB: 2, DictCap: 8 << 20, BufSize: 4096},
 				Data: fmt.Sprintf("@opsfit:%d", f), Parts: []int{len(caseData(fmt.Sprintf("@opsfit:%d", f)))}})
 		}
+		// the zero configuration (all defaults)
+		for i := 0; i < 4; i++ {
+			name, d := pickData(rng, 60000)
+			cases = append(cases, xzCase{Op: "xzwrite", Name: "zero-config/" + name, Cfg: xzCfg{LC: 3, PB: 2, DictCap: 8 << 20, BufSize: 4096, Zero: true}, Data: hxe(d), Parts: partition(rng, len(d))})
+		}
 		// barely compressible data: the raw and the LZMA form of every chunk are nearly the same size
 		for i := 0; i < 6; i++ {
 			d := genBarely(rng, 140000+rng.Intn(80000))
